@@ -31,6 +31,8 @@ def main():
     n = 0
     distinct = set()
     viol = []
+    classes = {}   # violations reported once per class with a canonical text (stable across grids / units)
+    masked_forms = "--masked" in sys.argv
     for gname, grid, shape in grids():
         if not isinstance(grid, fm.NoGrid):
             shape = tuple(grid.data_shape)
@@ -56,10 +58,17 @@ def main():
                     forms["list"] = base.tolist()
                 else:
                     forms["scalar"] = 1.0
+                if masked_forms and maskspec == "fixed":
+                    m2 = np.zeros(shape, dtype=bool)
+                    m2.reshape(-1)[-1] = True        # a different mask than the info's (size >= 2 for all gridded cases)
+                    forms["masked-same"] = np.ma.array(base, mask=m)
+                    forms["masked-same-time"] = np.ma.array(base[np.newaxis, ...], mask=m[np.newaxis, ...])
+                    if size >= 2:
+                        forms["masked-other"] = np.ma.array(base, mask=m2)
                 for fname, payload in forms.items():
                     data = payload
                     if dunits is not None:
-                        data = fm.UNITS.Quantity(np.asarray(payload), dunits)
+                        data = fm.UNITS.Quantity(payload if np.ma.isMaskedArray(payload) else np.asarray(payload), dunits)
                     n += 1
                     distinct.add((gname, units, dunits, maskspec, fname))
                     tag = f"grid={gname} info.units={units!r} data.units={dunits!r} mask={maskspec} form={fname}"
@@ -89,11 +98,16 @@ def main():
                     exp = base * factor
                     got = np.ma.getdata(r.magnitude)[0]
                     keep = ~m if maskspec == "fixed" else np.ones(np.shape(exp), dtype=bool)
+                    if fname == "masked-other":
+                        keep = keep & ~m2    # entries masked in the payload carry no data
                     if not np.allclose(np.asarray(got)[keep], np.asarray(exp)[keep], rtol=1e-12, atol=0):
                         viol.append(f"values changed: got {got.tolist()} expected {exp.tolist()}: {tag}")
                     if maskspec == "fixed":
                         if not np.ma.isMaskedArray(r.magnitude) or not np.array_equal(np.ma.getmaskarray(r.magnitude)[0], m):
-                            viol.append(f"fixed mask of the info not applied: {tag}")
+                            if fname == "masked-other":
+                                classes.setdefault("masked-other", "prepare(np.ma.array(x, mask=M2), Info(mask=M)) with M2 != M: the result keeps the payload's own mask M2, the fixed mask M of the info is not applied")
+                            else:
+                                viol.append(f"fixed mask of the info not applied: {tag}")
                     if maskspec == "none" and np.ma.isMaskedArray(r.magnitude) and np.ma.getmaskarray(r.magnitude).any():
                         viol.append(f"masked values under Mask.NONE: {tag}")
                     if viol:
@@ -104,7 +118,8 @@ def main():
                 break
         if viol:
             break
-    res = {"evaluations": n, "distinct_nontrivial": len(distinct), "violations": [{"case": v} for v in viol[:3]],
+    viol = viol[:3] + sorted(classes.values())
+    res = {"evaluations": n, "distinct_nontrivial": len(distinct), "violations": [{"case": v} for v in viol],
            "rule": "payload forms x grids x unit pairs x mask specifications on real numpy/pint (exhaustive over the listed product); distinct = (grid, units, data units, mask, form)",
            "bound": "grids: NoGrid 0-2D, UniformGrid 1-3D both orders; 6 unit pairs; 3 mask specifications; 5 payload forms", "exhaustive": True}
     if "--json" in sys.argv:
